@@ -14,6 +14,7 @@ import DoltVerif.Lemmas.MutMapRefine
 import DoltVerif.Lemmas.MutContent
 import DoltVerif.Lemmas.OrdinalPath
 import DoltVerif.Lemmas.CursorOrder
+import DoltVerif.Lemmas.IterEnds
 namespace DoltVerif.C11
 open DoltVerif.Prolly DoltVerif.SortedDict
 
@@ -369,6 +370,191 @@ theorem iterKeyRange_refines [Inhabited κ] {cmp : κ → κ → Ordering} (hc :
         unfold Tree.slice
         have : ¬ (rank cmp t.flatten a < rank cmp t.flatten b) := by omega
         simp [this]
+
+/-! ### the two end cursors: IterAll, IterAllReverse, unbounded key-range ends -/
+
+theorem rankP_true (l : List (κ × ν)) : rankP (fun _ => true) l = 0 := by
+  unfold rankP; cases l <;> simp
+
+theorem rankP_false (l : List (κ × ν)) : rankP (fun _ => false) l = l.length := by
+  unfold rankP
+  have : ∀ (l : List (κ × ν)), l.takeWhile (fun _ => true) = l := by
+    intro l
+    induction l with
+    | nil => rfl
+    | cons a r ih => simp [ih]
+  simp [this]
+
+/-- a search cursor whose ordinal is below `Count` sits on an item -/
+theorem seek_item_of_lt [Inhabited κ] {cmp : κ → κ → Ordering} (hc : TotalPreorder cmp) (t : Tree κ ν) (h : WF cmp t)
+    (hne : t.height = 0 ∨ t.root ≠ []) {p : κ → Bool} (hp : Mono cmp p) (lo : List Nat)
+    (hlo : seekPath (psearch p) t.height t.root = some lo) (hlt : rankP p t.flatten < t.flatten.length) :
+    (pathItem t.height t.root lo).isSome = true := by
+  have hfalse : Mono cmp (fun _ : κ => false) := fun _ _ _ h => by cases h
+  have ha := seek_ordinal_refines hc t h hne p hp
+  have hb := seek_ordinal_refines hc t h hne _ hfalse
+  unfold Tree.seekOrdinal at ha hb
+  rw [hlo] at ha
+  cases hhi : seekPath (psearch (fun _ : κ => false)) t.height t.root with
+  | none => rw [hhi] at hb; cases hb
+  | some hi =>
+    rw [hhi] at hb
+    simp only at ha hb
+    rw [rankP_false] at hb
+    have hcur := search_cursors_consistent hc t h hne hp hfalse lo hi hlo hhi
+    by_cases hcmp : cmpPath lo hi = .lt
+    · exact hcur.2 hcmp
+    · have := hcur.1 hcmp _ _ ha hb; omega
+
+theorem wf_flatten_ne [Inhabited κ] {cmp : κ → κ → Ordering} (t : Tree κ ν) (h : WF cmp t) (hroot : t.root ≠ []) :
+    t.flatten ≠ [] := by
+  obtain ⟨pre, kv, hfl, _⟩ := flatten_last t.height t.root h.node hroot
+  show flatten t.height t.root ≠ []
+  rw [hfl]; simp
+
+/-- **`IterAll` yields exactly the dictionary, in key order** (cursor at start … `newCursorPastEnd`);
+`IterAllReverse` yields it reversed. -/
+theorem iterAll_refines [Inhabited κ] {cmp : κ → κ → Ordering} (hc : TotalPreorder cmp) (t : Tree κ ν) (h : WF cmp t)
+    (hne : t.height = 0 ∨ t.root ≠ []) : t.iterAll = some t.flatten := by
+  by_cases hroot : t.root = []
+  · obtain ⟨ht, root⟩ := t
+    simp only at hroot hne
+    subst hroot
+    have h0 : ht = 0 := by rcases hne with h0 | h0; exact h0; exact absurd rfl h0
+    subst h0
+    rfl
+  · have hflne := wf_flatten_ne t h hroot
+    have hN : 0 < t.flatten.length := List.length_pos_iff.mpr hflne
+    have hlo := seekPath_true t.height t.root h.node hne
+    have ha := seek_ordinal_refines hc t h hne _ (mono_true cmp)
+    unfold Tree.seekOrdinal at ha
+    rw [hlo, rankP_true] at ha
+    simp only at ha
+    have hitem := seek_item_of_lt hc t h hne (mono_true cmp) _ hlo (by rw [rankP_true]; exact hN)
+    obtain ⟨kv, hkv⟩ := Option.isSome_iff_exists.mp hitem
+    have hb := pastEndPath_ordinal t.height t.root h.node hne
+    have hcmp : cmpPath (startPath t.height) (pastEndPath t.height t.root) = .lt := by
+      have : startPath t.height = 0 :: List.replicate t.height 0 := by simp [startPath, List.replicate_succ]
+      rw [this]; exact cmpPath_pastEnd_lt t.height t.root 0 _ (List.length_pos_iff.mpr hroot)
+    unfold Tree.iterAll Tree.iterPaths
+    simp only [hcmp, bne_self_eq_false, Bool.false_eq_true, if_false, hkv, ha, hb, Tree.slice]
+    have hfl : flatten t.height t.root = t.flatten := rfl
+    rw [hfl]
+    simp [hN]
+
+theorem iterAllReverse_refines [Inhabited κ] {cmp : κ → κ → Ordering} (hc : TotalPreorder cmp) (t : Tree κ ν)
+    (h : WF cmp t) (hne : t.height = 0 ∨ t.root ≠ []) : t.iterAllReverse = some t.flatten.reverse := by
+  unfold Tree.iterAllReverse; rw [iterAll_refines hc t h hne]; rfl
+
+/-- **`IterKeyRange(nil, stop)`**: everything below the first key ≥ `stop` -/
+theorem iterKeyRange_open_start [Inhabited κ] {cmp : κ → κ → Ordering} (hc : TotalPreorder cmp) (t : Tree κ ν)
+    (h : WF cmp t) (hne : t.height = 0 ∨ t.root ≠ []) (b : κ) :
+    t.iterKeyRange cmp none (some b) = some (t.slice 0 (rank cmp t.flatten b)) := by
+  have hLo := mono_true (κ := κ) cmp
+  have hHi := mono_searchForKey hc b
+  have hlo := seekPath_true t.height t.root h.node hne
+  have ha := seek_ordinal_refines hc t h hne _ hLo
+  have hb := seek_ordinal_refines hc t h hne _ hHi
+  rw [rankP_true] at ha
+  rw [rankP_searchForKey] at hb
+  unfold Tree.seekOrdinal at ha hb
+  rw [hlo] at ha
+  rw [← searchForKey_eq_psearch] at hb
+  unfold Tree.iterKeyRange Tree.keyRangePaths Tree.atKeyPath
+  cases hhi : seekPath (searchForKey cmp b) t.height t.root with
+  | none => rw [hhi] at hb; cases hb
+  | some hi =>
+    rw [hhi] at hb
+    simp only at ha hb
+    have hcur := search_cursors_consistent hc t h hne hLo hHi _ hi hlo
+      (by rw [← searchForKey_eq_psearch]; exact hhi)
+    simp only [bind, Option.bind, pure, hhi]
+    unfold Tree.iterPaths
+    by_cases hcmp : cmpPath (startPath t.height) hi = .lt
+    · obtain ⟨kv, hkv⟩ := Option.isSome_iff_exists.mp (hcur.2 hcmp)
+      simp only [hcmp, bne_self_eq_false, Bool.false_eq_true, if_false, hkv, ha, hb]
+    · have hle := hcur.1 hcmp _ _ ha hb
+      have hne' : (cmpPath (startPath t.height) hi != .lt) = true := by simpa using hcmp
+      simp only [hne', if_true, Option.some.injEq]
+      unfold Tree.slice
+      have : ¬ (0 < rank cmp t.flatten b) := by omega
+      simp [this]
+
+/-- **`IterKeyRange(start, nil)`**: everything from the first key ≥ `start` — PROVIDED some key is
+≥ `start` (`hsome`).  Without it this is the known finding
+`prollymap/iter-key-range/start-past-last-key-open-stop`: `newCursorPastEnd` is not a search cursor,
+`compareCursors` says `lo < hi` and the iterator dereferences a past-the-end cursor (the model
+returns `none` = panic there, as the code does). -/
+theorem iterKeyRange_open_stop [Inhabited κ] {cmp : κ → κ → Ordering} (hc : TotalPreorder cmp) (t : Tree κ ν)
+    (h : WF cmp t) (hne : t.height = 0 ∨ t.root ≠ []) (a : κ)
+    (hsome : rank cmp t.flatten a < t.flatten.length) :
+    t.iterKeyRange cmp (some a) none = some (t.flatten.drop (rank cmp t.flatten a)) := by
+  have hLo := mono_searchForKey hc a
+  have ha := seek_ordinal_refines hc t h hne _ hLo
+  rw [rankP_searchForKey] at ha
+  unfold Tree.seekOrdinal at ha
+  rw [← searchForKey_eq_psearch] at ha
+  unfold Tree.iterKeyRange Tree.keyRangePaths Tree.atKeyPath
+  cases hlo : seekPath (searchForKey cmp a) t.height t.root with
+  | none => rw [hlo] at ha; cases ha
+  | some lo =>
+    rw [hlo] at ha
+    simp only at ha
+    have hitem := seek_item_of_lt hc t h hne hLo lo (by rw [← searchForKey_eq_psearch]; exact hlo)
+      (by rw [rankP_searchForKey]; exact hsome)
+    obtain ⟨kv, hkv⟩ := Option.isSome_iff_exists.mp hitem
+    have hb := pastEndPath_ordinal t.height t.root h.node hne
+    -- the root index of a search cursor is in bounds, that of `newCursorPastEnd` is `Count`
+    have hcmp : cmpPath lo (pastEndPath t.height t.root) = .lt := by
+      obtain ⟨ht, root⟩ := t
+      cases ht with
+      | zero =>
+        simp only [seekPath, Option.some.injEq] at hlo
+        subst hlo
+        simp only [pathOrdinal, Option.some.injEq] at ha
+        have hl : (Tree.flatten ⟨0, root⟩).length = root.length := rfl
+        rw [hl] at hsome
+        exact cmpPath_pastEnd_lt 0 root _ [] (by rw [ha]; exact hsome)
+      | succ n =>
+        obtain ⟨it, rest, hg, _, hp⟩ := seekPath_succ_some _ n root lo hlo
+        rw [hp]
+        exact cmpPath_pastEnd_lt (n+1) root _ rest (List.getElem?_eq_some_iff.mp hg).1
+    simp only [bind, Option.bind, pure, hlo]
+    unfold Tree.iterPaths
+    simp only [hcmp, bne_self_eq_false, Bool.false_eq_true, if_false, hkv, ha, hb, Tree.slice, hsome, if_true,
+      Option.some.injEq]
+    have hfl : flatten t.height t.root = t.flatten := rfl
+    rw [hfl, List.take_of_length_le (by rw [List.length_drop]; exact Nat.le_refl _)]
+    simp [hsome]
+
+/-- `GetKeyRangeCardinality` with open ends -/
+theorem cardinality_refines_open [Inhabited κ] {cmp : κ → κ → Ordering} (hc : TotalPreorder cmp) (t : Tree κ ν)
+    (h : WF cmp t) (hne : t.height = 0 ∨ t.root ≠ []) (k : κ) :
+    t.keyRangeCardinality cmp none (some k) = some (rank cmp t.flatten k) ∧
+    t.keyRangeCardinality cmp (some k) none = some (t.flatten.length - rank cmp t.flatten k) ∧
+    t.keyRangeCardinality cmp none none = some t.flatten.length := by
+  have hk := ordinal_refines hc t h hne k
+  unfold Tree.ordinalForKey Tree.seekOrdinal at hk
+  have hlo := seekPath_true t.height t.root h.node hne
+  have h0 := seek_ordinal_refines hc t h hne _ (mono_true cmp)
+  unfold Tree.seekOrdinal at h0
+  rw [hlo, rankP_true] at h0
+  simp only at h0
+  have hN := pastEndPath_ordinal t.height t.root h.node hne
+  have hfl : (flatten t.height t.root).length = t.flatten.length := rfl
+  rw [hfl] at hN
+  unfold Tree.keyRangeCardinality Tree.keyRangePaths Tree.atKeyPath
+  cases hp : seekPath (searchForKey cmp k) t.height t.root with
+  | none => rw [hp] at hk; cases hk
+  | some pk =>
+    rw [hp] at hk
+    simp only at hk
+    refine ⟨?_, ?_, ?_⟩
+    · simp only [bind, Option.bind, pure, hp, h0, hk]; simp
+    · simp only [bind, Option.bind, pure, hp, hk, hN, Option.some.injEq]
+      have : rank cmp t.flatten k ≤ t.flatten.length := (List.takeWhile_sublist _).length_le
+      split <;> omega
+    · simp only [bind, Option.bind, pure, h0, hN]; simp
 
 /-- **`IterOrdinalRange(start, stop)` refines the dictionary**: for `start < stop ≤ Count` it
 yields exactly the entries at positions `start … stop-1` (cursor at ordinal `start`, stop cursor at
